@@ -1973,7 +1973,11 @@ import prettyprinter as pp
 import uuid, enum, pathlib, functools, collections, datetime, types
 class Color(enum.Enum):
     RED = 1
+def a_function(x):
+    return x
 cases = {
+  # values whose printers add a comment of their own (# class, # function, # built-in function): the user's comment must still be shown
+  'class': lambda: Color, 'builtin-class': lambda: int, 'function': lambda: a_function, 'builtin-function': lambda: len, 'bound-method': lambda: [].append,
   'uuid': lambda: uuid.UUID(int=7), 'enum': lambda: Color.RED, 'path': lambda: pathlib.PurePosixPath('/a/b'),
   'partial': lambda: functools.partial(int, base=2), 'mappingproxy': lambda: types.MappingProxyType({'a': 1}),
   'ordereddict': lambda: collections.OrderedDict(a=1), 'datetime': lambda: datetime.date(2020, 1, 2), 'exception': lambda: ValueError('x'),
@@ -1994,7 +1998,8 @@ def fresh_comment_section(tier, seed):
     import json
     import subprocess
     from common import REPO
-    names = ['uuid', 'enum', 'path', 'partial', 'mappingproxy', 'ordereddict', 'datetime', 'exception']
+    names = ['uuid', 'enum', 'path', 'partial', 'mappingproxy', 'ordereddict', 'datetime', 'exception',
+             'class', 'builtin-class', 'function', 'builtin-function', 'bound-method']
     wraps = ['comment', 'in-list', 'dict-value', 'trailing']
     jobs = [(n, w) for n in names for w in (wraps if tier == 'thorough' else wraps[:3])]
     fails, tot = [], 0
